@@ -13,6 +13,7 @@ typedef struct
     a_str *s;
     unsigned char m[MMAX];
     size_t n;
+    int by_ctor;
 } smodel;
 static smodel S[2];
 static char const *opname = "op";
@@ -255,7 +256,15 @@ static void vf_case(uint64_t c, vf_rng *r)
     int nops = 30 + (int)vf_below(r, 40), alive = 1;
     for (int k = 0; k < 2; ++k)
     {
-        S[k].s = a_str_new();
+        if ((c >> 1 ^ (uint64_t)k) & 1)
+        {
+            S[k].s = (a_str *)malloc(sizeof(a_str)); /* constructor/destructor on caller-provided storage */
+            memset(S[k].s, 0x5A, sizeof(a_str));
+            a_str_ctor(S[k].s);
+            S[k].by_ctor = 1;
+            VF_COUNT("ctor-dtor-on-caller-storage");
+        }
+        else { S[k].s = a_str_new(); S[k].by_ctor = 0; }
         S[k].n = 0;
     }
     if (vf_want_sample() && c % 4 == 0)
@@ -509,10 +518,15 @@ static void vf_case(uint64_t c, vf_rng *r)
             a_str_swap(s0, s1);
             ++vf.evals;
             t = S[0];
-            S[0] = S[1];
-            S[1] = t;
-            S[0].s = s0;
-            S[1].s = s1;
+            {
+                int c0 = S[0].by_ctor, c1 = S[1].by_ctor;
+                S[0] = S[1];
+                S[1] = t;
+                S[0].s = s0;
+                S[1].s = s1;
+                S[0].by_ctor = c0;
+                S[1].by_ctor = c1;
+            }
             VF_COUNT("swap");
             alive = check_state(&S[0], 0) && check_state(&S[1], 0);
             break;
@@ -604,5 +618,14 @@ static void vf_case(uint64_t c, vf_rng *r)
         }
         }
     }
-    for (int k = 0; k < 2 && alive; ++k) { a_str_die(S[k].s); }
+    for (int k = 0; k < 2 && alive; ++k)
+    {
+        if (S[k].by_ctor)
+        {
+            a_str_dtor(S[k].s);
+            if (a_str_ptr(S[k].s) || a_str_len(S[k].s) || a_str_mem(S[k].s)) { vf_viol("str_dtor/object-not-empty", "ptr %p len %zu mem %zu after a_str_dtor", (void *)a_str_ptr(S[k].s), a_str_len(S[k].s), a_str_mem(S[k].s)); }
+            free(S[k].s);
+        }
+        else { a_str_die(S[k].s); }
+    }
 }
